@@ -2,6 +2,7 @@
 // (fill independence for C09/C17/C18, logger independence for C16). Shared by pbt, fuzz target and replayer.
 #pragma once
 #include "predicates.hpp"
+#include <vector>
 
 namespace vf {
 
@@ -11,7 +12,7 @@ extern RunFn g_zoo[];
 int zooCount();
 
 struct EvalCtx {
-	Trace main, shadow;
+	Trace main, shadow, main2;
 	Analysis A;
 	uint64_t classes = 0;
 	uint64_t runs = 0;
@@ -63,6 +64,35 @@ inline void evaluate(const Case& c, uint32_t armed, Verdict& V, EvalCtx& X) {
 				}
 				if (on(18)) V.add(18, i, "read of an indeterminate value: " + msg);
 				break;
+			}
+		}
+	}
+	// twins (C16): the same quiet history on a machine whose states all define their callbacks and on its twin with callback-less states.
+	// Verbose logging records deliveries to states that define no callback, so both record sequences are identical; non-verbose logging
+	// records exactly the deliveries to callbacks that exist (react-family records are emitted regardless of the class).
+	if (on(16) && X.main.info.hasLog) {
+		int twin = -1;
+		if (idx == 0) twin = 10; else if (idx == 1) twin = 12; else if (idx == 10) twin = 0; else if (idx == 12) twin = 1;
+		if (twin >= 0 && g_zoo[twin]) {
+			Case q = c;
+			q.ctor.clear(); for (Op& op : q.ops) op.acts.clear();   // quiet callbacks: the history is driven by the operations alone
+			q.flags |= 1;
+			RunOpts r2; r2.loggerMode = 2;
+			const int full = (idx == 0 || idx == 1) ? idx : twin, bare = (idx == 0 || idx == 1) ? twin : idx;
+			q.cfg = uint8_t(full); g_zoo[full](q, X.main2, r2); ++X.runs;
+			q.cfg = uint8_t(bare); g_zoo[bare](q, X.shadow, r2); ++X.runs;
+			if (!X.main2.overflow && !X.shadow.overflow) {
+				const Info& fb = X.shadow.info;
+				std::vector<uint32_t> a, b;
+				for (uint32_t i = 0; i < X.main2.n; ++i) { const Ev& e = X.main2.ev[i]; if (e.kind == EV_LOG && e.method == LOG_METHOD) {
+					const bool react = e.b == M_PRE_REACT || e.b == M_REACT || e.b == M_POST_REACT || e.b == M_QUERY;
+					if (fb.verbose || react || defines(fb, e.a, e.b)) a.push_back((uint32_t(e.inst) << 16) | (uint32_t(e.a) << 8) | e.b); } }
+				for (uint32_t i = 0; i < X.shadow.n; ++i) { const Ev& e = X.shadow.ev[i]; if (e.kind == EV_LOG && e.method == LOG_METHOD) b.push_back((uint32_t(e.inst) << 16) | (uint32_t(e.a) << 8) | e.b); }
+				if (a != b) {
+					size_t k = 0; while (k < a.size() && k < b.size() && a[k] == b[k]) ++k;
+					V.add(16, 0, std::string(fb.verbose ? "verbose logging: the twin with callback-less states does not produce the same method records as the all-defined machine" : "non-verbose logging: the twin's method records are not exactly the records of the callbacks its states define") +
+						" (first difference at record " + std::to_string(k) + ": " + (k < a.size() ? "expected s" + std::to_string(int((a[k] >> 8) & 0xFF) == 255 ? -1 : int((a[k] >> 8) & 0xFF)) + "." + methName(a[k] & 0xFF) : std::string("<end>")) + ", twin has " + (k < b.size() ? "s" + std::to_string(int((b[k] >> 8) & 0xFF) == 255 ? -1 : int((b[k] >> 8) & 0xFF)) + "." + methName(b[k] & 0xFF) : std::string("<end>")) + ")");
+				}
 			}
 		}
 	}
